@@ -2,7 +2,9 @@
 
 use proptest::prelude::*;
 use serde::{Deserialize, Serialize};
+use vkit::Fail;
 use vmodel::rt::*;
+use warp_core::{ProvenanceService, ProvenanceStore};
 
 #[derive(Clone, Debug, Serialize, Deserialize)]
 pub struct HistCase {
@@ -26,3 +28,22 @@ pub fn run(case: &HistCase, flush: bool) -> (World, Vec<String>) {
     }
     (w, tags)
 }
+
+/// Histories in which every intent enters through the witnessed + ticketed path, with restarts.
+pub fn hist_case_ticketed(max_wl: usize, max_heads: usize, max_steps: usize) -> impl Strategy<Value = HistCase> {
+    (world_seed(max_wl, max_heads), prop::collection::vec(step_seed_ticketed(), 1..max_steps)).prop_map(|(world, steps)| HistCase { world, steps })
+}
+
+/// A checkpoint-free copy of the service (rebuilt from entries).
+pub fn strip_checkpoints(w: &World) -> Result<ProvenanceService, Fail> {
+    let mut p = ProvenanceService::new();
+    for wl in 0..w.n_wl() as u8 {
+        p.register_worldline(wl_id(wl), &w.initial[wl as usize]).map_err(|e| Fail::new("C07/harness/register", format!("{e:?}")))?;
+        for t in 0..w.len(wl) {
+            let e = w.provenance.entry(wl_id(wl), wt(t)).map_err(|e| Fail::new("C07/harness/entry", format!("{e:?}")))?;
+            p.append_local_commit(e).map_err(|e| Fail::new("C05/append-refuses-own-history", format!("re-appending the recorded entry {t} of worldline {wl} is refused: {e:?}")))?;
+        }
+    }
+    Ok(p)
+}
+
